@@ -25,12 +25,29 @@ def pairs (j : Json) : Except String (List (String × String)) := do
     let a ← p.getArrVal? 0; let b ← p.getArrVal? 1
     pure (← a.getStr?, ← b.getStr?)
 
-def opOf (j : Json) : Except String Op := do
+/-- One client call of the harness. `"w": true` on a call that takes a held field object `{"h": i}` means the client hands in a
+    fresh writeable view of it: `w = handles[i].writeable(); call(w, …)` — two model operations, `Op.view (.byHandle i)` and
+    then the call on the new field object (whose id is the number of field objects so far); see `runObs`. -/
+structure Call where
+  view : Option Nat        -- take a writeable view of this held object first …
+  op : FRef → Op           -- … and hand it to the call (the argument is ignored by calls decoded without `"w"`)
+
+def viewFlag (j : Json) : Option Nat :=
+  match j.getObjValAs? Bool "w" with
+  | .ok true =>
+    match j.getObjVal? "r" with
+    | .ok rj => (rj.getObjValAs? Nat "h").toOption
+    | .error _ => none
+  | _ => none
+
+def opOf (j : Json) (viaView : Option FRef := none) : Except String Op := do
   let o ← get? String j "o"
   let d := (j.getObjValAs? Nat "d").toOption.getD 0
   let f := (j.getObjValAs? String "f").toOption.getD ""
   let n := (j.getObjValAs? String "n").toOption.getD ""
-  let r := fun (_ : Unit) => do fref (← j.getObjVal? "r")
+  let r := fun (_ : Unit) => match viaView with
+    | some w => pure w
+    | none => do fref (← j.getObjVal? "r")
   let sd := (j.getObjValAs? Nat "sd").toOption.getD 0
   let sf := (j.getObjValAs? String "sf").toOption.getD ""
   match o with
@@ -57,7 +74,17 @@ def opOf (j : Json) : Except String Op := do
   | "deleteFrame" => pure (.deleteFrame d sd sf)
   | "moveFrame" => pure (.moveFrame sd sf d f)
   | "reopen" => pure (.reopen d)
+  | "view" => do pure (.view (← r ()))
   | _ => throw s!"bad op {o}"
+
+def callOf (j : Json) : Except String Call := do
+  match viewFlag j with
+  | some h =>
+    let _ ← opOf j (some (.byHandle 0))      -- decode errors surface here
+    pure ⟨some h, fun w => match opOf j (some w) with | .ok op => op | .error _ => .reopen 0⟩
+  | none =>
+    let op ← opOf j
+    pure ⟨none, fun _ => op⟩
 
 def errTag : Err → String
   | .other m => m
@@ -97,19 +124,29 @@ def obs (nds : Nat) (res : String) (s : State) : Json :=
     ("ds", Json.arr ((List.range nds).map (dsObs s)).toArray),
     ("handles", Json.arr ((List.range s.handles.length).map (handleObs s)).toArray)]
 
-def runObs (v : Variant) (nds : Nat) : State → List Op → List Json
+/-- one harness step: the optional view (if `writeable()` raises, that is the outcome of the step and the call is not made),
+    then the call; one observation after both -/
+def callStep (v : Variant) (s : State) (c : Call) : Res Unit :=
+  match c.view with
+  | none => step v s (c.op (.byHandle 0))
+  | some h =>
+    match step v s (.view (.byHandle h)) with
+    | .err e s1 => .err e s1
+    | .ok _ s1 => step v s1 (c.op (.byHandle s.handles.length))
+
+def runObs (v : Variant) (nds : Nat) : State → List Call → List Json
   | _, [] => []
-  | s, op :: ops =>
-    let r := step v s op
+  | s, c :: cs =>
+    let r := callStep v s c
     let tag := match r with | .ok _ _ => "ok" | .err e _ => errTag e
-    obs nds tag r.state :: runObs v nds r.state ops
+    obs nds tag r.state :: runObs v nds r.state cs
 
 def handle : Driver.Handler := fun op j =>
   match op with
   | "catalogue" => some do
     let opsJ ← j.getObjVal? "ops"
     let arr ← opsJ.getArr?
-    let ops ← arr.toList.mapM opOf
+    let ops ← arr.toList.mapM callOf
     let nds := (j.getObjValAs? Nat "nds").toOption.getD 2
     let v := match j.getObjValAs? String "variant" with | .ok "asFound" => Variant.asFound | _ => Variant.repaired
     pure <| Driver.okJson (Json.arr (runObs v nds State.init ops).toArray)
